@@ -290,7 +290,7 @@ func recUnder(s *selAst, under bool) bool {
 func mutateNode(r *rng.R, n datamodel.Node, muts *[]string) datamodel.Node {
 	switch n.Kind() {
 	case datamodel.Kind_Map:
-		nb, _ := qp.BuildMap(basicnode.Prototype.Any, -1, func(ma datamodel.MapAssembler) {
+		nb, err := qp.BuildMap(basicnode.Prototype.Any, -1, func(ma datamodel.MapAssembler) {
 			it := n.MapIterator()
 			for !it.Done() {
 				k, v, _ := it.Next()
@@ -338,15 +338,22 @@ func mutateNode(r *rng.R, n datamodel.Node, muts *[]string) datamodel.Node {
 				}
 			}
 		})
+		if err != nil || nb == nil {
+			// two renames collided on one key: the builder refuses duplicate keys; keep the node as it was
+			return n
+		}
 		return nb
 	case datamodel.Kind_List:
-		nb, _ := qp.BuildList(basicnode.Prototype.Any, -1, func(la datamodel.ListAssembler) {
+		nb, err := qp.BuildList(basicnode.Prototype.Any, -1, func(la datamodel.ListAssembler) {
 			it := n.ListIterator()
 			for !it.Done() {
 				_, v, _ := it.Next()
 				qp.ListEntry(la, qp.Node(mutateNode(r, v, muts)))
 			}
 		})
+		if err != nil || nb == nil {
+			return n
+		}
 		return nb
 	case datamodel.Kind_Link:
 		return n
